@@ -433,6 +433,21 @@ func execStateMethods(c *Ctx, which map[string]bool) {
 					ok = false
 					c.Fail(name, pos, "the copy must carry the given result's Result and Error as last result and error", pathTrace(ev, p))
 				}
+				// CopyWithResult(nil) is "a copy as it is": the copy keeps the last result and error copy() gave it (the
+				// listeners and delay functions that get such a copy must see the most recent completed attempt's outcome)
+				if has == triF {
+					for _, x := range p.Events() {
+						if x.Kind == EvStore && x.Addr.Op == "faddr" && rootedAt(x.Addr, cc) && (FieldName(x.Addr.Aux) == "lastResult" || FieldName(x.Addr.Aux) == "lastError") {
+							ok = false
+							c.Fail(name, pos, "without a result the copy must keep the last result and error of the execution it was copied from (CopyWithResult(nil) is handed to OnFull / OnRateLimitExceeded / OnCacheMiss / OnHedge listeners and to the hedge delay function, which must still see the previous attempt's outcome)", pathTrace(ev, p))
+							break
+						}
+					}
+				}
+				if has == triU {
+					ok = false
+					c.Fail(name, pos, "what the copy carries does not depend on whether a result is given", pathTrace(ev, p))
+				}
 				for _, x := range p.Events() {
 					if x.Kind == EvStore && rootOf(x.Addr) == e {
 						ok = false
@@ -441,7 +456,7 @@ func execStateMethods(c *Ctx, which map[string]bool) {
 				}
 			}
 			if ok {
-				c.Ok(name, pos, "copy(); result≠nil ⇒ the copy's last result/error are the given ones; the live execution is untouched")
+				c.Ok(name, pos, "copy(); result≠nil ⇒ the copy's last result/error are the given ones, result=nil ⇒ unchanged; the live execution is untouched")
 			}
 		}
 	}
@@ -474,6 +489,22 @@ func execStateMethods(c *Ctx, which map[string]bool) {
 				}
 				if ev.LoadField(p.State, cc, "ctx") != wc[0].Res[0] || ev.LoadField(p.State, cc, "cancelFunc") != wc[0].Res[1] {
 					bad("the copy must own the child context and its cancel function (so that Cancel cancels under the lock)")
+				}
+				// apart from its context (and the hedge flag) the copy is the parent: it shares the parent's lock, counters
+				// and cancel-result slot, so that a Cancel or a timeout recorded through either is seen through both
+				for _, x := range p.Events() {
+					if x.Kind != EvStore || x.Addr.Op != "faddr" || !rootedAt(x.Addr, cc) {
+						continue
+					}
+					switch f := FieldName(x.Addr.Aux); f {
+					case "ctx", "cancelFunc":
+					case "isHedge":
+						if !spec.hedge {
+							bad("a cancellable copy is not a hedge")
+						}
+					default:
+						bad("the copy's " + f + " is replaced: a child execution must share everything but its context with the execution it was copied from (lock, counters, the slot in which a cancellation's result is stored — otherwise a cancellation recorded through the parent is not reported through the child and the caller sees a bare context error)")
+					}
 				}
 				adds := eventsWhere(p, func(x *Event) bool { return isCall(x, "Add") })
 				if !spec.hedge {
